@@ -47,6 +47,7 @@ TPReq == /\ E.ev = "Req" /\ ~skipping /\ sent # <<>>
             ELSE IF k > Len(sent) THEN Fail(<<"Smuggled: a request beyond the messages sent", E.idx, E.path>>)
             ELSE LET c == Cls(k) IN
               IF E.idx # k THEN Fail(<<"Smuggled: expected message", k, "got", E.idx, E.path>>)
+              ELSE IF E.method # sent[k].method THEN Fail(<<"Method differs from the message sent", k, E.method>>)
               ELSE IF c.k = "err" /\ ~c.free THEN Fail(<<"RejectNotIgnore", "expected", c.errs, "accepted as", E.body>>)
               ELSE IF c.k = "err" THEN phase' = "free" /\ Keep /\ UNCHANGED <<nvalid, sent, k>>
               ELSE IF Mismatch(E, c) # <<>> THEN Fail(<<"Mismatch", Mismatch(E, c)>>)
